@@ -150,3 +150,31 @@ seed(74, "vec256 refill advances lanes by 4 instead of 8", ["C05.R3"],
      ("src/skinny128-ctr-vec256.c", "            skinny128_ctr_increment(ctx->counter, 5, 8);", "            skinny128_ctr_increment(ctx->counter, 5, 4);"))
 seed(75, "set_counter right-pads: memset all then memcpy to the front (skinny64 generic)", ["C05.R4"],
      ("src/skinny64-ctr.c", "        memset(ctx->counter, 0, SKINNY64_BLOCK_SIZE - size);\n        memcpy(ctx->counter + SKINNY64_BLOCK_SIZE - size, counter, size);", "        memset(ctx->counter, 0, SKINNY64_BLOCK_SIZE);\n        memcpy(ctx->counter, counter, size);"))
+
+seed(24, "tail loop of skinny128_parallel_ecb_decrypt calls skinny128_ecb_encrypt", ["C07.R4", "C03.R1"],
+     ("src/skinny128-parallel.c", "        skinny128_ecb_decrypt(output, input, ks);", "        skinny128_ecb_encrypt(output, input, ks);"))
+seed(25, "tweak += MANTIS_BLOCK_SIZE removed from the Mantis tail loop", ["C07.R1"],
+     ("src/mantis-parallel.c", "        input += MANTIS_BLOCK_SIZE;\n        tweak += MANTIS_BLOCK_SIZE;", "        input += MANTIS_BLOCK_SIZE;"))
+seed(27, "READ_WORD32(input, 52)/(input, 36) swapped in the vec128 ECB load", ["C07.R3"],
+     ("src/skinny128-parallel-vec128.c", "READ_WORD32(input, 36)", "READ_WORD32(input, 52)"))
+seed(76, "vector loop of skinny64_parallel_ecb_encrypt advances input by BLOCK instead of psize", ["C07.R1"],
+     ("src/skinny64-parallel.c", "            (*(vtable->encrypt))(output, input, ks);\n            output += psize;\n            input += psize;", "            (*(vtable->encrypt))(output, input, ks);\n            output += psize;\n            input += SKINNY64_BLOCK_SIZE;"))
+seed(77, "mantis tail calls the stored-tweak function (ignores the tweak array)", ["C07.R1", "C07.R4"],
+     ("src/mantis-parallel.c", "        mantis_ecb_crypt_tweaked(output, input, tweak, ks);", "        mantis_ecb_crypt(output, input, ks);"))
+seed(78, "scalar tail loop condition size > BLOCK (last block dropped)", ["C07.R1"],
+     ("src/skinny128-parallel.c", "    while (size >= SKINNY128_BLOCK_SIZE) {\n        skinny128_ecb_encrypt(output, input, ks);", "    while (size > SKINNY128_BLOCK_SIZE) {\n        skinny128_ecb_encrypt(output, input, ks);"))
+seed(79, "vec256 encrypt: lanes of blocks 2 and 3 swapped in the de-interleaving store", ["C07.R3"],
+     ("src/skinny128-parallel-vec256.c", "row0[2], row1[2], row2[2], row3[2]", "row0[3], row1[2], row2[2], row3[2]"))
+seed(80, "byte-path variant (not compiled by default): vec128 store of word 52 writes row1[2] instead of row1[3]", ["C07.R3"],
+     ("src/skinny128-parallel-vec128.c", "WRITE_WORD32(output, 52, row1[3]);", "WRITE_WORD32(output, 52, row1[2]);"))
+
+seed(46, "mantis_swap_modes also zeroes the tweak", ["C03.R4"],
+     ("src/mantis-cipher.c", "    /* Swap k0 with k0prime */\n    MantisCells_t tmp = ks->k0;", "    /* Swap k0 with k0prime */\n    MantisCells_t tmp = ks->k0;\n    ks->tweak.lrow[0] = 0; ks->tweak.lrow[1] = 0;"))
+seed(81, "vec256 parallel table has encrypt in both slots (copy-paste)", ["C03.R1", "C07.R4"],
+     ("src/skinny128-parallel.c", "static Skinny128ParallelECBVtable_t const skinny128_parallel_ecb_vec256 = {\n    _skinny128_parallel_encrypt_vec256,\n    _skinny128_parallel_decrypt_vec256\n};", "static Skinny128ParallelECBVtable_t const skinny128_parallel_ecb_vec256 = {\n    _skinny128_parallel_encrypt_vec256,\n    _skinny128_parallel_encrypt_vec256\n};"))
+seed(82, "skinny64 vec128 decrypt starts at schedule[rounds] (off by one)", ["C03.R2"],
+     ("src/skinny64-parallel-vec128.c", "ks->schedule[ks->rounds - 1]", "ks->schedule[ks->rounds]"))
+seed(83, "mantis_parallel_ecb_swap_modes switches a copy (no effect on the object)", ["C03.R4"],
+     ("src/mantis-parallel.c", "    ks = ecb->ctx;\n    mantis_swap_modes(ks);", "    { MantisKey_t copy = *(MantisKey_t *)(ecb->ctx); ks = &copy; }\n    mantis_swap_modes(ks);"))
+seed(84, "mantis_swap_modes forgets to xor alpha into k1", ["C03.R4"],
+     ("src/mantis-cipher.c", "    /* XOR k1 with the alpha constant */\n#if RC_ROW_SIZE == 64\n    ks->k1.llrow ^= ALPHA;\n#elif", "    /* XOR k1 with the alpha constant */\n#if RC_ROW_SIZE == 64\n    (void)0;\n#elif"))
